@@ -4,6 +4,7 @@ package operator
 
 import (
 	"reduction.dev/reduction/dkv"
+	"reduction.dev/reduction/dkv/storage"
 	"reduction.dev/reduction/proto/workerpb"
 	"reduction.dev/reduction/util/vhook"
 )
@@ -24,4 +25,20 @@ func (o *Operator) VerifDB() *dkv.DB {
 	o.mu.RLock()
 	defer o.mu.RUnlock()
 	return o.db
+}
+
+// VerifFileSystem is the argument of the hook point "operator.filesystem",
+// reached when a deployment has created the file system of the operator's
+// database. A harness that runs several operators inside one process may
+// replace FS, e.g. with a wrapper that tells the files of different operator
+// processes apart or records storage operations.
+type VerifFileSystem struct {
+	OperatorID string
+	FS         storage.FileSystem
+}
+
+func (o *Operator) verifFileSystem(fs storage.FileSystem) storage.FileSystem {
+	arg := &VerifFileSystem{OperatorID: o.id, FS: fs}
+	vhook.At("operator.filesystem", arg)
+	return arg.FS
 }
